@@ -488,6 +488,42 @@ func runHeadersFirst(k *mon.Case) {
 	}
 	s.CheckUtxo = true
 	s.AfterOp("final")
+	// headers (and blocks) that extend a branch known to be invalid must be refused, also when only an ancestor further
+	// up is the invalid block: invalidate a block a few steps below the tip, offer brand-new children of its descendants,
+	// then reconsider and offer them again
+	if !s.Failed && s.Tip.Height >= 5 && r.Chance(2, 3) {
+		x := s.Tip.Ancestor(s.Tip.Height - int32(2+r.Intn(2)))
+		var under []*refchain.Block
+		for _, b := range g.Tree.All {
+			if b != x && x.IsAncestorOf(b) && b.ChainValid() && s.Status[b] == sim.SStored {
+				under = append(under, b)
+			}
+		}
+		s.Invalidate(x)
+		var fresh []*refchain.Block
+		for i := 0; i < 3 && len(under) > 0 && !s.Failed; i++ {
+			y := under[r.Intn(len(under))]
+			z := g.Block(r, y, chaingen.BlockOpts{NTx: 0})
+			fresh = append(fresh, z)
+			if r.Chance(1, 3) {
+				s.DeliverBlock(z)
+			} else {
+				s.DeliverHeader(z)
+			}
+			k.Count("hf.new_child_of_invalid_ancestor_branch", 1)
+		}
+		if !s.Failed {
+			s.Reconsider(x)
+		}
+		for _, z := range fresh {
+			if !s.Failed && s.Status[z] == sim.SUnknown {
+				s.DeliverHeader(z)
+			}
+		}
+		if !s.Failed {
+			s.AfterOp("after-invalid-branch-probe")
+		}
+	}
 	k.Count("hf.trees", 1)
 	k.Eval(mon.Sig("hf", fam, len(blocks), interleave, s.Tip.Hash.String()[:8], bh.Hash.String()[:8]), true)
 	if k.Index < 2 {
@@ -507,6 +543,7 @@ func main() {
 			c.Require(q, 500)
 		}
 		c.Require("hf.best_header_checks", 500)
+		c.Require("hf.new_child_of_invalid_ancestor_branch", 50)
 		_ = fmt.Sprint
 	})
 }
